@@ -246,6 +246,29 @@ class Analyzer:
         self._summary[path] = s
         return s
 
+    def deep_source_calls(self, fa, e, depth=3):
+        """source_calls of e, descending into the return values of local callees (bounded depth)."""
+        out = []
+        seen = set()
+        work = [(fa, c, depth) for c in fa.source_calls(e)]
+        while work:
+            a, c, d = work.pop()
+            if id(c) in seen:
+                continue
+            seen.add(id(c))
+            out.append(c)
+            cal = callee_of(c)
+            if d > 0 and cal in self.crate.fns:
+                ca = self.fa(cal)
+                if ca is None:
+                    continue
+                body = body_of(ca.fn)
+                rets = [body] + [n["e"] for n in walk(body) if n.get("k") == "Return" and "e" in n]
+                for r in rets:
+                    for c2 in ca.source_calls(r):
+                        work.append((ca, c2, d - 1))
+        return out
+
     def fields_in(self, path):
         """All (ADT, field) projections occurring in the body of local function `path`."""
         if path not in self._fields_in:
